@@ -226,6 +226,16 @@ theorem gzip_CLok (pg : Pages) (rq : Req) (cached : Bool) (r : Resp) (h : CLok r
       · exact hv
       · exact setError_CLok _ _ _
 
+theorem probe_CLok (act : ProbeAct) (once : Bool) (r : Resp) (h : CLok r) : CLok (probeStep act once r).1 := by
+  unfold probeStep
+  split
+  · exact h
+  · simp only
+    split
+    · exact CLok_congr rfl rfl h
+    · exact CLok_of_none (by simp)
+    · exact CLok_congr rfl rfl h
+
 /-- every built-in step keeps the framing invariant, whether it returns or raises -/
 theorem applyStep_CLok (pg : Pages) (rq : Req) (cached : Bool) (s : Step) (r : Resp) (h : CLok r) :
     CLok (applyStep pg rq cached s r).1 := by
@@ -235,6 +245,7 @@ theorem applyStep_CLok (pg : Pages) (rq : Req) (cached : Bool) (s : Step) (r : R
   | etags => exact etags_CLok rq r h
   | gzip => exact gzip_CLok pg rq cached r h
   | tee => exact tee_CLok r h
+  | probe act once => exact probe_CLok act once r h
 
 /-- ... and so does every *sequence* of steps, in any order and of any length -/
 theorem runSteps_CLok (pg : Pages) (rq : Req) (cached : Bool) (steps : List Step) (r : Resp) (h : CLok r) :
@@ -251,5 +262,49 @@ theorem runSteps_CLok (pg : Pages) (rq : Req) (cached : Bool) (steps : List Step
     · rename_i r' e heq
       rw [heq] at this
       exact this
+
+
+/-! ### any tool mix: third-party steps that follow the rule -/
+
+/-- `HookMap.run` over arbitrary (user-supplied) steps -/
+def runAny : List (Resp → Out) → Resp → Out
+  | [], r => (r, none)
+  | f :: rest, r =>
+    match f r with
+    | (r', none) => runAny rest r'
+    | (r', some e) => (r', some e)
+
+/-- The rule every body-rewriting tool has to follow ("delete Content-Length so finalize recalculates
+    it"), as a predicate on an arbitrary step. -/
+def StepOk (f : Resp → Out) : Prop := ∀ r, CLok r → CLok (f r).1
+
+/-- every built-in step follows the rule … -/
+theorem builtin_StepOk (pg : Pages) (rq : Req) (cached : Bool) (s : Step) : StepOk (applyStep pg rq cached s) :=
+  fun r h => applyStep_CLok pg rq cached s r h
+
+/-- … a step that replaces the body and deletes the header follows it, whatever the new body is … -/
+theorem rewrite_and_delete_StepOk (g : Body → Body) :
+    StepOk (fun r => ({ r with body := g r.body, hdrs := r.hdrs.del .contentLength }, none)) :=
+  fun _ _ => CLok_of_none (by simp)
+
+/-- … and any mix of steps that follow the rule, built-in or not, in any order, keeps the invariant -/
+theorem runAny_CLok (steps : List (Resp → Out)) (hs : ∀ f ∈ steps, StepOk f) (r : Resp) (h : CLok r) :
+    CLok (runAny steps r).1 := by
+  induction steps generalizing r with
+  | nil => exact h
+  | cons f rest ih =>
+    unfold runAny
+    have hf := hs f List.mem_cons_self r h
+    have ih' := ih (fun g hg => hs g (List.mem_cons_of_mem _ hg))
+    split
+    · rename_i r' heq; rw [heq] at hf; exact ih' r' hf
+    · rename_i r' e heq; rw [heq] at hf; exact hf
+
+/-- a step that rewrites the body and *forgets* the header breaks the invariant (the rule is needed) -/
+theorem forgetful_step_breaks :
+    ¬ StepOk (fun r => ({ r with body := ⟨.list, [.bytes [0]]⟩ }, none)) := by
+  intro h
+  have := h { hdrs := fun k => if k = .contentLength then some (.nat 0) else none } (by simp [CLok, allBytes, concat])
+  simp [CLok, allBytes, concat] at this
 
 end CpProofs.C06
